@@ -13,6 +13,7 @@ import (
 	"strings"
 
 	pipeline "github.com/buildkite/go-pipeline"
+	"github.com/buildkite/go-pipeline/verifexport"
 	"github.com/buildkite/go-pipeline/verifseam"
 
 	"verifharness/explore"
@@ -36,7 +37,7 @@ type c11matrix struct {
 type c11case struct {
 	M    c11matrix         `json:"matrix"`
 	Perm map[string]string `json:"permutation"`
-	Via  string            `json:"via"` // direct | parsed
+	Via  string            `json:"via"` // direct | parsed | interpolated (parsed, then Pipeline.Interpolate with an empty environment)
 }
 
 func c11skip(s any) bool {
@@ -169,10 +170,17 @@ func c11yaml(m c11matrix) string {
 	return b.String()
 }
 
-func c11parse(m c11matrix) (*pipeline.CommandStep, error) {
+func c11parse(m c11matrix, interp bool) (*pipeline.CommandStep, error) {
 	p, err := pipeline.Parse(strings.NewReader(c11yaml(m)))
 	if err != nil {
 		return nil, err
+	}
+	if interp {
+		// an earlier life: the whole pipeline went through env interpolation (empty environment, and the documents hold no `$`),
+		// which must leave the matrix - skip values included - as it was parsed
+		if err := p.Interpolate(verifexport.NewEnv(true, map[string]string{}), false); err != nil {
+			return nil, fmt.Errorf("Interpolate with an empty environment: %w", err)
+		}
 	}
 	if len(p.Steps) != 1 {
 		return nil, fmt.Errorf("steps=%d", len(p.Steps))
@@ -187,9 +195,9 @@ func c11parse(m c11matrix) (*pipeline.CommandStep, error) {
 // c11judge runs one (matrix, permutation) case.
 func c11judge(c c11case) (kind, detail string, accepted bool) {
 	var st *pipeline.CommandStep
-	if c.Via == "parsed" {
+	if c.Via == "parsed" || c.Via == "interpolated" {
 		var err error
-		st, err = c11parse(c.M)
+		st, err = c11parse(c.M, c.Via == "interpolated")
 		if err != nil {
 			return "harness-parse", err.Error() + "\n" + c11yaml(c.M), false
 		}
@@ -424,7 +432,7 @@ func c11run(w *report.W) {
 		}
 	}
 	// nil matrix
-	for _, via := range []string{"direct", "parsed"} {
+	for _, via := range []string{"direct", "parsed", "interpolated"} {
 		c11subsets([]string{"", "os"}, []string{"a"}, func(p map[string]string) {
 			run(c11case{M: c11matrix{Nil: true, Dims: []string{}}, Perm: p, Via: via})
 		})
@@ -466,6 +474,9 @@ func c11run(w *report.W) {
 				vias := []string{"direct"}
 				if len(adjs) <= sc.parsedMax {
 					vias = append(vias, "parsed")
+					if len(adjs) <= 1 {
+						vias = append(vias, "interpolated")
+					}
 				}
 				for _, via := range vias {
 					c11subsets(permDims, []string{"a", "b", "c"}, func(p map[string]string) {
